@@ -186,6 +186,20 @@ def handle (line : Json) : Json :=
       ("path", if okM then "history/all-steps-unchanged" else "history/some-step-changed"), ("branches", jstrs br),
       ("spec_model", okM), ("spec_impl", okI),
       ("why", Json.mkObj [("failing_steps", jnats ((res.zipIdx.filter fun (r, _) => !r.2.2.1).map (·.2)))])]
+  | "construct" =>
+    -- the instance is the state the real constructor produced (reported by the implementation run)
+    if strD impl "r" != "built" then
+      Json.mkObj [("model", Json.mkObj [("r", "refused")]), ("path", "construct/refused"), ("spec_model", true), ("spec_impl", true)]
+    else
+      let i := jInst ((obj? impl "state").getD Json.null)
+      let m := modelRoundTrip E i
+      let iv := jRt ((obj? impl "rt").getD Json.null)
+      let shape := instShape T i
+      Json.mkObj [("model", Json.mkObj [("r", "built"), ("rt", rtJ m)]),
+        ("path", "construct/" ++ (if !shape then "outside-instance-space" else if specRoundTrip T i m then "unchanged" else "changed")),
+        ("branches", jstrs (branchesNode E i.cls (wire (serialise T i)) [])),
+        ("spec_model", specRoundTrip T i m), ("spec_impl", shape && specRoundTrip T i iv),
+        ("why", Json.mkObj [("shape", shape), ("treeWf", treeWf T i), ("wireClean", wireClean E i)])]
   | "xsdorder" =>
     let cls := natD c "cls"
     let x := jNode ((obj? c "tree").getD Json.null)
